@@ -13,7 +13,7 @@ import os
 import time
 
 VERIF = os.path.dirname(os.path.dirname(os.path.abspath(__file__)))
-EVIDENCE_DIR = os.path.join(VERIF, "evidence")
+EVIDENCE_DIR = os.environ.get("PDQVERIF_EVIDENCE_DIR") or os.path.join(VERIF, "evidence")  # scratch runs may redirect
 REPLAY_DIR = os.path.join(EVIDENCE_DIR, "replay")
 KNOWN = os.path.join(VERIF, "known_findings.json")
 
